@@ -21,16 +21,17 @@ Tr == Traces[tid]
 
 CfgOf(c) == [cd |-> c.cdt, wg |-> c.wgt, obeyset |-> {TRUE, FALSE},
              ws |-> [i \in 1..Len(c.ws) |->
-                       [n |-> c.ws[i].n, np |-> c.ws[i].np, G |-> c.ws[i].Gp, W |-> c.ws[i].Wt, sing |-> c.ws[i].sing,
+                       [n |-> c.ws[i].n, ln |-> c.ws[i].ln, np |-> c.ws[i].np, G |-> c.ws[i].Gp, W |-> c.ws[i].Wt, sing |-> c.ws[i].sing,
                         resp |-> c.ws[i].resp, auto |-> c.ws[i].auto, prio |-> c.ws[i].prio, ssig |-> c.ws[i].ssig,
                         sch |-> c.ws[i].sch, hup |-> c.ws[i].hup, hooks |-> c.ws[i].hooks, retry |-> c.ws[i].retry]]]
 
 InitState(cfg) ==
   [cfg |-> cfg, now |-> 0, k |-> <<>>,
    ws |-> [i \in 1..Len(cfg.ws) |->
-            [st |-> "stopped", np |-> cfg.ws[i].np, pr |-> <<>>, sing |-> cfg.ws[i].sing, resp |-> cfg.ws[i].resp,
+            [st |-> "stopped", rel |-> FALSE, np |-> cfg.ws[i].np, pr |-> <<>>, sing |-> cfg.ws[i].sing, resp |-> cfg.ws[i].resp,
              od |-> FALSE, G |-> cfg.ws[i].G, W |-> cfg.ws[i].W, ssig |-> cfg.ws[i].ssig, sch |-> cfg.ws[i].sch,
              hup |-> cfg.ws[i].hup]],
+   wl |-> [i \in 1..Len(cfg.ws) |-> i], wn |-> <<>>,
    fr |-> [f \in FrameIds |-> NoFrame], cur |-> <<>>, rq |-> <<>>, tm |-> {}, pnext |-> -1, pdue |-> 0,
    slot |-> "", stopping |-> FALSE, restarting |-> FALSE, exited |-> FALSE, creq |-> QuitReq,
    faults |-> <<>>, blocked |-> 0, out |-> NoLine, lastobs |-> <<>>, cbpend |-> FALSE, pjit |-> FALSE, nreq |-> 0,
@@ -49,10 +50,12 @@ StateOK(t, ln) ==
      LET o == ln.s IN
      /\ (ln.k \in {"die", "sigdeath"} /\ ln.cb = 1) \/
         /\ o.slot = t.slot /\ o.stopping = t.stopping /\ o.restarting = t.restarting
-        /\ Len(o.w) = NW(t)
-        /\ \A i \in 1..NW(t) :
-             /\ o.w[i].st = t.ws[i].st /\ o.w[i].np = t.ws[i].np
-             /\ o.w[i].pr = [j \in 1..Len(t.ws[i].pr) |->
+        /\ o.wl = [j \in 1..Len(t.wl) |-> WN(t, t.wl[j])]
+        /\ SeqSet(o.wn) = { e.k : e \in SeqSet(t.wn) } /\ Len(o.wn) = Len(t.wn)
+        /\ Len(o.w) = Len(DirSeq(t))
+        /\ \A jj \in 1..Len(DirSeq(t)) : LET i == DirSeq(t)[jj] IN
+             /\ o.w[jj].n = WN(t, i) /\ o.w[jj].st = t.ws[i].st /\ o.w[jj].np = t.ws[i].np
+             /\ o.w[jj].pr = [j \in 1..Len(t.ws[i].pr) |->
                                <<t.ws[i].pr[j].p, t.ws[i].pr[j].wid, IF t.k[t.ws[i].pr[j].p].stp THEN 1 ELSE 0>>]
      /\ Len(o.k) = NP(t)
      /\ \A p \in 1..NP(t) : o.k[p][2] = t.k[p].st /\ o.k[p][3] = t.k[p].ws /\ o.k[p][4] = t.k[p].par
@@ -66,7 +69,8 @@ ReqOf(ln) == [cmd |-> ln.q.cmd, name |-> ln.q.name, lname |-> ln.q.lname, hasnam
               signum |-> ln.q.signum, children |-> ln.q.children, recursive |-> ln.q.recursive,
               childpid |-> ln.q.childpid, nb |-> IF ln.q.cmd = "set" THEN ln.q.setnp ELSE ln.q.nb,
               G |-> ln.q.Gp, nostop |-> ln.q.nostop, graceful |-> ln.q.graceful,
-              sequential |-> ln.q.sequential, raw |-> ln.q.raw]
+              sequential |-> ln.q.sequential, raw |-> ln.q.raw, start |-> ln.q.start, addnp |-> ln.q.addnp,
+              addG |-> ln.q.addGp, addW |-> ln.q.addWt, addsing |-> ln.q.addsing]
 
 Tk(ms) == (ms + 50) \div 100
 
